@@ -710,3 +710,33 @@ def extendor_index(rep, rule, mod):
               construct='init', node=ini)
 
 
+
+
+def setter_routes(rep, rule, cls, name, site, target='_setBases', construct='setter'):
+    """assigning <obj>.<name> = v runs self.<target>(v) and nothing else,
+    however the property is spelled"""
+    from ..pyfront import property_accessors
+    from ..sympath import summaries, normal
+    from .sem import nt
+    acc = property_accessors(cls, name)
+    f = acc.get('set')
+    probs = []
+    if f is None:
+        probs.append('no setter found for property %s' % name)
+    else:
+        ps_ = [a.arg for a in f.args.args]
+        if len(ps_) != 2:
+            probs.append('setter signature %s' % ps_)
+        else:
+            want = '%s.%s(%s)' % (ps_[0], target, ps_[1])
+            ss = normal(summaries(f))
+            if not ss:
+                probs.append('setter has no normal path')
+            for ps in ss:
+                ev = [nt(e.r) if e.kind == 'call' else repr(e)[:50] for e in ps.events]
+                if ev != [want]:
+                    probs.append('setter does `%s` (required `%s`)' % (ev[:3], want))
+    rep.check(rule, site, not probs,
+              'assignment to %s goes through self.%s(value)' % (name, target)
+              if not probs else {'problems': sorted(set(probs))[:3]},
+              construct=construct, node=cls)
